@@ -8,6 +8,7 @@ import FrappyProofs.Lemmas.CommCallbacks
 import FrappyProofs.Lemmas.CommExchange
 import FrappyProofs.Lemmas.CommProtect
 import FrappyProofs.Lemmas.CommStateTrue
+import FrappyProofs.Lemmas.CommCallbacksIdent
 import FrappyModel.Generated.C16
 /-
 C16 — property theorems (nothing but property theorems and their non-vacuity examples).
@@ -754,6 +755,45 @@ theorem callbacks_once_run (cfg : Cfg) (cbs : List Nat) (evs : List TEv) (hacc :
       congr 2
       simp [List.getD, List.getElem?_eq_getElem hj]
 
+/-- Callbacks once, with an identification configured — for EVERY accepted run (any configuration): when `checkHWIdent`
+of caller `c` has passed at position v (event `idend c true`: the reconnect is successful now) after the communicator
+had closed a connection before (a REconnect), the events of `c` that follow are, one by one and in order, the runs of the
+callbacks registered at v — each exactly once, before `c` does anything else.  (Also for a reconnect made from within an
+identification request.) -/
+theorem callbacks_once_ident_run (cfg : Cfg) (cbs : List Nat) (evs : List TEv) (hacc : Accepted cfg cbs evs)
+    (c v m : Nat) (hvm : v < m) (hv : evAt evs v = some (.idend c true))
+    (hh : ∃ h0, h0 < v ∧ isHclose (evAt evs h0) = true)
+    (hm : whoAt evs m = some c)
+    (hj : countOf evs c v m < (registeredAt cbs evs v).length) :
+    ∃ keep, evAt evs m = some (.cb c ((registeredAt cbs evs v).getD (countOf evs c v m) 0) keep) := by
+  unfold Accepted at hacc
+  cases hex : exec { cfg := cfg, cbsReg := cbs } evs with
+  | none => simp [hex] at hacc
+  | some sf =>
+    have hmlt : m < evs.length := by
+      false_or_by_contra; rename_i hn
+      simp [whoAt, evAt_none evs m (by omega)] at hm
+    obtain ⟨em, hem⟩ : ∃ em, evs[m]? = some em := ⟨evs[m], by simp [hmlt]⟩
+    have hwho : em.ev.who = some c := by simpa [whoAt, evAt, hem] using hm
+    obtain ⟨sk, sk', hpre, hst⟩ := exec_cut _ evs m em hem sf hex
+    have hc := dinv_exec cfg cbs (evs.take m) sk hpre
+    have hlen : (evs.take m).length = m := by simp; omega
+    have hpc := hc.k5 c v (by rw [evAt_take evs m v hvm]; exact hv)
+      (by obtain ⟨h0, h0v, hx⟩ := hh; exact ⟨h0, h0v, by rw [evAt_take evs m h0 (by omega)]; exact hx⟩)
+      (by rw [hlen, countOf_take, registeredAt_take cbs evs m v (by omega)]; exact hj)
+    rw [hlen, countOf_take, registeredAt_take cbs evs m v (by omega)] at hpc
+    rw [List.drop_eq_getElem_cons (h := hj)] at hpc
+    rw [step_caller_form sk em c hwho] at hst
+    split at hst
+    · simp at hst
+    · obtain ⟨x, keep, hev, _⟩ := step_in_cbs _ sk' em.t c _ _ em.ev hst hpc
+      have hx : x = c := by rw [hev] at hwho; simpa [Ev.who] using hwho
+      subst hx
+      refine ⟨keep, ?_⟩
+      simp only [evAt, hem, Option.map_some, hev]
+      congr 2
+      simp [List.getD, List.getElem?_eq_getElem hj]
+
 /-- Polling resumes, the part that is a fact about `trigger_all` alone: after the poll thread's reconnect callback every
 polled module of the thread is due in the next turn (any turn at a time later than the module's poll interval — times
 are seconds since the epoch).  That the callback runs after EVERY reconnect is `callbacks_once_run` together with the
@@ -1346,6 +1386,33 @@ example : Accepted identCfg [] identMultiRun ∧ identCfg.ident ≠ [] ∧ sendA
     trafficAt identMultiRun 27 = some 2 ∧ evAt identMultiRun 29 = some (.ret 1 (.ok [[97, 48]])) ∧
     timeAt identMultiRun 19 + 100000 ≤ timeAt identMultiRun 27 ∧ transactionProtectedB identMultiRun = true ∧
     delaysHonouredB identMultiRun = true := by
+  unfold Accepted; decide
+
+/-- with an identification: caller 1 connects (the device identifies itself), communicates; the device closes; the next
+call finds the connection closed and drops it; 3.1 s later caller 1 reconnects, the identification passes, the
+callbacks 0 and 1 run (1 asks to be removed), the command is answered -/
+def identHealRun : List TEv := [
+  ⟨5000000, .call 1 .comm [⟨[65], true, 2, 0⟩]⟩, ⟨5000000, .chk 1 false⟩, ⟨5000001, .now 1 5000001⟩, ⟨5000002, .now 1 5000002⟩,
+  ⟨5000002, .connect 1 true true⟩, ⟨5000003, .isconn 1 true⟩,
+  ⟨5000003, .chk 1 true⟩, ⟨5000003, .acq 1⟩, ⟨5000003, .flush 1⟩, ⟨5000003, .isend 1 0 0 [73, 68]⟩,
+  ⟨5100000, .arrive 0 (some 0) [105, 100, 48, 120]⟩, ⟨5100000, .recv 1 (.data [105, 100, 48, 120])⟩, ⟨5100000, .rel 1⟩,
+  ⟨5100001, .idend 1 true⟩,
+  ⟨5100002, .acq 1⟩, ⟨5100002, .flush 1⟩, ⟨5100002, .send 1 0 1 [65]⟩, ⟨5100003, .devclose 0⟩,
+  ⟨5100004, .recv 1 .closed⟩, ⟨5100004, .hclose 1⟩, ⟨5100005, .isconn 1 false⟩, ⟨5100005, .rel 1⟩, ⟨5100006, .ret 1 .err⟩,
+  ⟨8200000, .call 1 .comm [⟨[66], true, 2, 0⟩]⟩, ⟨8200000, .chk 1 false⟩, ⟨8200001, .now 1 8200001⟩, ⟨8200002, .now 1 8200002⟩,
+  ⟨8200002, .connect 1 true true⟩, ⟨8200003, .isconn 1 true⟩,
+  ⟨8200003, .chk 1 true⟩, ⟨8200003, .acq 1⟩, ⟨8200003, .flush 1⟩, ⟨8200003, .isend 1 1 2 [73, 68]⟩,
+  ⟨8300000, .arrive 1 (some 2) [105, 100, 50, 120]⟩, ⟨8300000, .recv 1 (.data [105, 100, 50, 120])⟩, ⟨8300000, .rel 1⟩,
+  ⟨8300001, .idend 1 true⟩, ⟨8300002, .cb 1 0 true⟩, ⟨8300003, .cb 1 1 false⟩,
+  ⟨8300004, .acq 1⟩, ⟨8300004, .flush 1⟩, ⟨8300004, .send 1 1 3 [66]⟩,
+  ⟨8400000, .arrive 1 (some 3) [98, 48]⟩, ⟨8400000, .recv 1 (.data [98, 48])⟩, ⟨8400000, .rel 1⟩, ⟨8400001, .ret 1 (.ok [[98, 48]])⟩]
+
+-- callbacks_once_ident_run: identification passed at 36 after the close at 19; callbacks 0 and 1 at 37 and 38
+example : Accepted identCfg [0, 1] identHealRun ∧ evAt identHealRun 36 = some (.idend 1 true) ∧
+    isHclose (evAt identHealRun 19) = true ∧ whoAt identHealRun 37 = some 1 ∧ countOf identHealRun 1 36 37 = 0 ∧
+    countOf identHealRun 1 36 38 = 1 ∧ registeredAt [0, 1] identHealRun 36 = [0, 1] ∧
+    evAt identHealRun 38 = some (.cb 1 1 false) ∧ callbacksOnceB [0, 1] identHealRun = true ∧
+    stateNotOverwrittenB identHealRun = true := by
   unfold Accepted; decide
 
 /-! ## facts about the constants taken from the source (re-generated on every run) -/
